@@ -68,6 +68,13 @@ Definition step (m : mach) (ins : bytes) : mach :=
            ops := ops m; envl := envl m; jobsr := jobsr m; curlog := curlog m |}
       else if Byte.eqb op x4f (* O  id count *) then
         let k := numn (v 0 m) in push_node m (dropv 2 m) k (For (num (v 1 m)) (popn k m))
+      else if Byte.eqb op x48 (* H  kind limit errid own times count : a hand-written component that is passed the block of the
+                                      top `count` statements; kind p = into the writer it was given, f = through a forwarding writer of its
+                                      own (limit: empty = none), c = into a bytes.Buffer of its own *) then
+        let k := numn (v 0 m) in
+        let kind := if is (v 5 m) "f" then HFwd (match v 4 m with [] => None | l => Some (numn l) end) (num (v 3 m)) (flag (v 2 m))
+                    else if is (v 5 m) "c" then HCapture else HPass in
+        push_node m (dropv 6 m) k (Host kind (numn (v 1 m)) (popn k m))
       else if Byte.eqb op x57 (* W  bytes *) then
         {| vals := dropv 1 m; nodes := nodes m; ops := FWrite (v 0 m) :: ops m; envl := envl m; jobsr := jobsr m; curlog := curlog m |}
       else if Byte.eqb op x53 (* S  bytes *) then
@@ -151,7 +158,7 @@ Definition run_all (cap : nat) (sw flusher : bool) (instrs : list bytes) : list 
                         let '(d, de) := denote html_escape (j_env _ j) (j_benv _ j) (j_senv _ j) (j_cnt _ j) (j_cancel _ j) (Templ (j_guard _ j) (j_body _ j)) [] in
                         [enc_res (o_err o); o_out o; enc_log (o_log o); enc_marks (o_marks o);
                          (* the specification predicate, evaluated on what the implementation did *)
-                         match io with Some i => b2 (spec_okb d de (i_res i) (i_got i) (i_log i)) | None => bs "-" end;
+                         match io with Some i => b2 (spec_okb d de (host_errs (Templ (j_guard _ j) (j_body _ j))) (i_res i) (i_got i) (i_log i)) | None => bs "-" end;
                          d; enc_res de])
               (combine obs js)).
 
@@ -167,7 +174,7 @@ Definition run_allw (cap : nat) (instrs : list bytes) : list bytes :=
                         [enc_res (wo_res o); enc_res (wo_fres o); wo_got o; enc_log (wo_log1 o ++ wo_log2 o);
                          dec (N.of_nat (length (wo_log1 o))); dec (N.of_nat (wo_thru o));
                          match io with
-                         | Some i => b2 (spec_wrap_okb d de (i_res i) (i_fres i) (i_got i) (firstn (i_nrender i) (i_log i))
+                         | Some i => b2 (spec_wrap_okb d de (host_errs (Templ (j_guard _ j) (j_body _ j))) (i_res i) (i_fres i) (i_got i) (firstn (i_nrender i) (i_log i))
                                                        (skipn (i_nrender i) (i_log i)) (i_foreign i))
                          | None => bs "-"
                          end;
